@@ -217,6 +217,8 @@ def run(ctx):
                what="read_record allocates a buffer of an untrusted length read from the file without a dominating upper-bound test "
                     "(a torn prefix can request up to 4 GiB)", where=rr.loc(t["line"]))
 
+    reader_cap_rule(ctx, P, "R4")
+
     # ------------------------------------------------------------------ R5 a bad record ends replay
     ri = P.fn("WalRecovery::recover_internal")
     ix = FlowCx(P, ri)
@@ -386,6 +388,33 @@ def run(ctx):
     ok = bool(cks) and all(must_pass(close, c, set(sync_calls), set(assigns)) for c in cks)
     ctx.ob("R8", "GrafeoDB::close#sync-before-closed", ok,
            what="GrafeoDB::close can mark the database closed after a checkpoint without syncing the log", where=close.loc())
+    # an fsync of the log only makes durable what has left the user-space buffer: wherever the log's BufWriter is
+    # fsynced (through get_ref()), a flush of that writer dominates the fsync
+    nfs = 0
+    for f in P.fns.values():
+        if not (f.id.startswith("grafeo_adapters::storage::wal::log::") or f.id.startswith("grafeo_adapters::storage::wal::async_log::")):
+            continue
+        fx2 = None
+        for bi, t in f.calls():
+            if not _is(callee_name(t), SYNC_ALL):
+                continue
+            fx2 = fx2 or FlowCx(P, f)
+            tg = fx2.tags(t["args"][0])
+            if not any(x.startswith("call:") and x.endswith("::get_ref") for x in tg):
+                continue  # a bare File (temp file, tail repair), nothing is buffered in user space
+            nfs += 1
+            fl = [b2 for b2, t2 in f.calls() if callee_name(t2).split("::")[-1] == "flush"]
+            if f.kind == "closure":
+                # coroutine body of an async fn: after the state transform every resume point hangs off the dispatch block,
+                # so dominance says nothing; require that the fsync is reached from a flush of the writer
+                ok = any(bi in f.reachable_blocks(b2) and b2 != bi for b2 in fl)
+            else:
+                ok = any(f.dominates(b2, bi) and b2 != bi for b2 in fl)
+            k = sum(1 for b3, t3 in f.calls() if _is(callee_name(t3), SYNC_ALL) and b3 < bi)
+            ctx.ob("R8", "%s#flush-before-fsync[%d]" % (short_id(f.id), k), ok,
+                   what="%s fsyncs the log file without flushing its BufWriter first: records still in the user-space buffer are "
+                        "reported durable by a sync / checkpoint / close that has not written them" % short_id(f.id), where=f.loc(t["line"]))
+    ctx.floor("R8", nfs, 4, "fsyncs of the buffered log writer")
     # dropping the database closes it (commit marker, checkpoint, sync)
     ddrop = P.method("GrafeoDB", "Drop", "drop")
     ctx.ob("R8", "GrafeoDB#drop-closes", close.id in P.reach([ddrop]),
@@ -403,3 +432,42 @@ def run(ctx):
     ok = any(_is(callee_name(t), SYNC_ALL) for f in arot for bi, t in f.calls())
     ctx.ob("R8b", "AsyncWalManager::rotate#fsync-retired", ok,
            what="async rotate() replaces the active log without flushing and fsyncing the file it retires", where=arot[0].loc())
+
+
+def reader_cap_rule(ctx, P, rule):
+    rr = P.fn("WalRecovery::read_record")
+    rx = FlowCx(P, rr)
+    wl = P.fn("WalManager::log")
+    awl = [f for f in P.fns.values() if f.id.startswith("grafeo_adapters::storage::wal::async_log::AsyncWalManager::log::{closure")]
+    # the reader rejects no record the writer accepts: a fixed size cap in read_record must also be enforced by the
+    # writers (otherwise a large but valid record is written, kept by the tail repair, and ends replay at every reopen)
+    import re as _re
+    caps = set()
+    for bi, b in enumerate(rr.blocks):
+        if b["cl"]:
+            continue
+        for st in b["s"]:
+            rv = st[1]
+            if rv[0] == "bin" and rv[1] in ("Lt", "Le", "Gt", "Ge"):
+                a_, b_ = rx.tags(rv[2]), rx.tags(rv[3])
+                for x_, y_ in ((a_, b_), (b_, a_)):
+                    if any(z.endswith("from_le_bytes") for z in x_ if z.startswith("call:")) and y_ and all(_re.match(r"^const:\d+$", z) for z in y_):
+                        caps |= {int(z[6:]) for z in y_}
+    caps = {c for c in caps if c > 4096}
+    wconsts = set()
+    for wf in [wl] + awl:
+        wx2 = FlowCx(P, wf)
+        for bi, b in enumerate(wf.blocks):
+            if b["cl"]:
+                continue
+            for st in b["s"]:
+                rv = st[1]
+                if rv[0] == "bin" and rv[1] in ("Lt", "Le", "Gt", "Ge"):
+                    for z in wx2.tags(rv[2]) | wx2.tags(rv[3]):
+                        if _re.match(r"^const:\d+$", z):
+                            wconsts.add(int(z[6:]))
+    ctx.ob(rule, "read_record#no-cap-the-writer-lacks", caps <= wconsts,
+           what="read_record rejects records longer than %s bytes but WalManager::log writes them without that limit: a valid "
+                "large record (e.g. a big property value) is treated as corruption and ends replay at every reopen"
+                % sorted(caps - wconsts), where=rr.loc())
+
